@@ -3,10 +3,14 @@
 cd /verif && python3 bin/weave.py $1 ${2:-off} >/dev/null || exit 2
 verus build/woven/$1_${2:-off}.rs --error-format=json --multiple-errors 10 2>&1 | python3 -c "
 import json,sys
+n=0
 for l in sys.stdin:
     try: d=json.loads(l)
-    except: print(l.strip()); continue
+    except: print(l.strip()[:200]); continue
     if d.get('level')=='error':
-        print(d['message'][:300]);
-        for s in d['spans']: print('   ',s['line_start'], s.get('label'), s['is_primary'], s['text'][0]['text'].strip()[:220] if s['text'] else '')
-" | head -${VQ_HEAD:-40}
+        n+=1
+        if n>int('${VQ_HEAD:-14}'): continue
+        print(d['message'][:200]);
+        for s in d['spans']: print('   ',s['line_start'], s.get('label'), s['is_primary'], (s['text'][0]['text'].strip()[:170] if s['text'] else ''))
+print('errors listed:',n)
+"
